@@ -106,17 +106,18 @@ class SSCChart(BaseChart):
                 self[param.key] = ":".join(param.components[1:])
             else:
                 self[param.key] = param.value
-            if param.value is self.notes:
+            if param.key in ("NOTES", "NOTES2"):
                 break
 
     def serialize(self, file):
         file.write(f"{MSDParameter(('NOTEDATA', ''))}\n")
-        notes_key = "NOTES"
+        # Either NOTES or NOTES2 must be the last chart property; find it by
+        # key (not by value identity, which also matches any other property
+        # holding an equal interned string such as "")
+        notes_key = "NOTES2" if "NOTES" not in self and "NOTES2" in self else "NOTES"
 
         for (key, value) in self.items():
-            # Either NOTES or NOTES2 must be the last chart property
-            if value is self.notes:
-                notes_key = key
+            if key == notes_key:
                 continue
             if value is None:
                 # key-only property (e.g. "#CREDIT;")
